@@ -514,12 +514,22 @@ def rule_worker_panics(ctx):
     cg = callgraph.CallGraph(fx)
     sites, where, n_reach, _ = c16.collect_sites(fx, cg)
     n = 0
+    # a tabled site that left its function leaves slack for an unlisted site of the same kind in the prover module (code motion)
+    slack = {}
+    for (fn, kind), ent in WORKER_TABLE.items():
+        missing = ent[0] - sites.get((fn, kind), 0)
+        if missing > 0:
+            slack[kind] = slack.get(kind, 0) + missing
     for (fn, kind), cnt in sorted(sites.items()):
         if "verifying::prover" not in fn:
             continue
         n += 1
         ent = WORKER_TABLE.get((fn, kind))
         f, l = where[(fn, kind)]
+        if ent is None and slack.get(kind, 0) >= cnt:
+            slack[kind] -= cnt
+            ctx.ok("FLOW-MONO", "worker-panic:moved|%s" % kind, "%s:%s" % (f, l), "%d site(s) of kind `%s` in %s: a tabled site of that kind left its function (code motion)" % (cnt, kind, fn), nontrivial=False)
+            continue
         if ent is None:
             ctx.bad("FLOW-MONO", "worker-panic:%s|%s" % (hq.last(fn, 2), kind), "%s:%s" % (f, l),
                     "%d panic site(s) of kind `%s` in %s: a panic in a pool worker drops that problem's report, and the remaining reports can still say success" % (cnt, kind, fn))
